@@ -178,7 +178,16 @@ type gen struct {
 	// forced EXEC mask / structured address pattern of the next vector case (nil / 0 = seeded random)
 	forceExec *uint64
 	addrPat   int
+	// output modifiers of the next VOP3a case
+	clamp bool
+	omod  int
+	// OP_SEL / OP_SEL_HI / NEG / NEG_HI of the next packed-f32 case (nil = seeded random, NEG = NEG_HI)
+	pk *pkMod
 }
+
+type pkMod struct{ opsel, opselhi, neg, neghi int }
+
+func isPacked(d opDef) bool { return d.f == "VOP3a" && d.op >= 944 && d.op <= 946 }
 
 // address patterns of LDS / FLAT records: which slot (unit of the access size) lane l addresses
 const (
@@ -327,7 +336,7 @@ func (g *gen) scalarSrc(c *Case, key string, w int, vt byte, val uint64, slot in
 		return code
 	case 6:
 		code := 240 + g.r.Intn(9)
-		if w == 64 && code == 248 {
+		if w == 64 && code == 248 && vt != 'p' {
 			// the double 1/(2*pi) of the hardware is not the nearest double (0x3fc45f306dc9c882): not generated
 			code = 240
 		}
@@ -925,6 +934,14 @@ func (g *gen) genVector(arch, st string, d opDef, pl plan) *Case {
 		}
 		c.Fld["abs"] = abs
 		c.Fld["neg"] = neg
+		clampBit, omod := 0, 0
+		if d.tmpl == "vop3" && !has(d.flag, "sdst") {
+			if g.clamp {
+				clampBit = 1
+			}
+			omod = g.omod
+			c.Fld["clamp"], c.Fld["omod"] = clampBit, omod
+		}
 		switch d.tmpl {
 		case "vop3c":
 			dst := 20
@@ -943,8 +960,29 @@ func (g *gen) genVector(arch, st string, d opDef, pl plan) *Case {
 				sd := 24
 				c.Ops["sd"] = OpLog{C: sd, N: 2}
 				c.Enc = encVOP3b(d.op, dst, sd, srcs[0], srcs[1], srcs[2])
+			} else if isPacked(d) {
+				pk := g.pk
+				if pk == nil {
+					pk = &pkMod{opsel: g.r.Intn(8), opselhi: g.r.Intn(8)}
+					if g.r.Intn(3) == 0 {
+						pk.neg = g.r.Intn(8)
+						pk.neghi = pk.neg
+					}
+				}
+				m := 7
+				if d.cw == 0 {
+					m = 3
+				}
+				c.Fld["opsel"], c.Fld["opselhi"] = pk.opsel&m, pk.opselhi&m
+				c.Fld["neg"], c.Fld["abs"] = pk.neg&m, pk.neghi&m // NEG_HI occupies the ABS bits
+				c.Enc = encVOP3P(d.op, dst, pk.neghi&m, pk.opsel&m, pk.opselhi&m, srcs[0], srcs[1], srcs[2], pk.neg&m)
 			} else {
-				c.Enc = encVOP3a(d.op, dst, abs, 0, srcs[0], srcs[1], srcs[2], 0, neg)
+				c.Enc = encVOP3a(d.op, dst, abs, clampBit, srcs[0], srcs[1], srcs[2], omod, neg)
+				if clampBit != 0 || omod != 0 {
+					// old destination contents outside [0, 1]: negative, > 1, NaN, infinities (a CLAMP / OMOD
+					// pass must leave them alone in inactive lanes)
+					g.outsideUnitDst(c, 256+dst, d.dw)
+				}
 			}
 		case "vop3b":
 			dst := 10
@@ -1232,6 +1270,15 @@ func (g *gen) one(arch, st string, d opDef, rk, ka, kb int) *Case {
 // genC03: corner cross products first, then seeded random states.
 func (g *gen) genC03(scale int, only map[string]bool) {
 	for _, d := range buildTable() {
+		if isPacked(d) {
+			for _, arch := range archs(d) {
+				if only == nil || only[arch+"/"+d.f+"/"+itoa(d.op)] {
+					g.packedRecords(arch, d, false)
+					g.execSweep(arch, d)
+				}
+			}
+			continue
+		}
 		if d.cls != "ref" {
 			continue
 		}
@@ -1305,6 +1352,9 @@ func (g *gen) genC03(scale int, only map[string]bool) {
 					emit(plan{rk: -1, kind: autoKinds})
 				}
 				g.execSweep(arch, d)
+				if floatResultVOP3(d) {
+					g.modifierRecords(arch, d, false)
+				}
 			} else {
 				pa, pb := poolLen(vtAt(d, 0)), poolLen(vtAt(d, 1))
 				var pairs [][2]int
@@ -1446,6 +1496,186 @@ func (g *gen) memPatterns(arch string, d opDef, twins bool) {
 			emit(c)
 		}
 	}
+}
+
+// floatResultVOP3: VOP3a rows whose result is a float (CLAMP / OMOD apply to it)
+func floatResultVOP3(d opDef) bool {
+	return d.f == "VOP3a" && d.tmpl == "vop3" && d.op < 900 && !has(d.flag, "sdst") && d.vt != "" &&
+		strings.Trim(d.vt, "fd") == ""
+}
+
+var outside32 = []uint32{0xbf800000, 0x40000000, 0x7fc00000, 0xff800000, 0x7f800000, 0x7149f2ca, 0x80000000, 0xffc00001,
+	0x3f800001, 0xb3800000, 0x3f000000, 0xc2c80000}
+
+func (g *gen) outsideUnitDst(c *Case, code, w int) {
+	lo := make([]uint64, nLane)
+	for l := range lo {
+		v := outside32[(l+g.r.Intn(3))%len(outside32)]
+		if w == 64 {
+			lo[l] = f64of32(v)
+		} else {
+			lo[l] = uint64(v)
+		}
+	}
+	g.setV(c, code-256, w, lo)
+}
+
+func f64of32(v uint32) uint64 {
+	f := float64(math.Float32frombits(v))
+	return math.Float64bits(f)
+}
+
+// modifierRecords: VOP3a float instructions with CLAMP = 1 (corner lanes with every lane active, seeded
+// partial EXEC) and OMOD = 1..3, the old destination holding values outside [0, 1].
+func (g *gen) modifierRecords(arch string, d opDef, twins bool) {
+	emit := func(c *Case, tag string) {
+		c.Tag = tag
+		g.cases = append(g.cases, c)
+		if twins {
+			perm := g.r.Perm(nLane)
+			for perm[0] == 0 {
+				perm = g.r.Perm(nLane)
+			}
+			t := permuteCase(c, perm, g.nextID)
+			g.nextID++
+			g.cases = append(g.cases, t)
+		}
+	}
+	partial := func() *uint64 {
+		m := (g.r.Uint64() | 1) &^ (uint64(1) << uint(1+g.r.Intn(62))) &^ (uint64(0xff) << uint(8*g.r.Intn(8)))
+		m |= 1
+		return &m
+	}
+	g.clamp = true
+	if !twins {
+		emit(g.genVector(arch, "emu", d, plan{rk: 0, kind: autoKinds}), "clamp")
+	}
+	for k := 0; k < 2; k++ {
+		g.forceExec = partial()
+		st := "emu"
+		if k == 1 {
+			st = "timing"
+		}
+		emit(g.genVector(arch, st, d, plan{rk: -1, kind: [3]int{0, 0, 0}}), "clamp")
+	}
+	g.clamp = false
+	g.omod = 1 + g.r.Intn(3)
+	g.forceExec = partial()
+	emit(g.genVector(arch, "emu", d, plan{rk: -1, kind: [3]int{0, 0, 0}}), "omod")
+	g.omod, g.forceExec = 0, nil
+}
+
+// packedRecords: the CDNA3 packed-f32 instructions (v_pk_fma/mul/add_f32).  Every source in turn is an inline float
+// constant, an inline integer 0..64, an SGPR pair (the other sources VGPR pairs), with OP_SEL / OP_SEL_HI of that
+// source selecting the low dword for one half of the result and the high dword for the other, in both orders; VGPR-only
+// records over OP_SEL / OP_SEL_HI / NEG; records with NEG # NEG_HI; full and partial EXEC; both register models.
+// Records of v_pk_fma_f32 that carry an inline constant hold values whose products are exact (small integers times
+// powers of two, constants 0.5 .. 4.0), so that they do not depend on whether the multiply-add is fused.
+func (g *gen) packedRecords(arch string, d opDef, twins bool) {
+	n := 2
+	if d.cw != 0 {
+		n = 3
+	}
+	cnt := 0
+	emit := func(kinds [3]int, pk pkMod, exact bool) {
+		st := "emu"
+		if cnt%3 == 2 {
+			st = "timing"
+		}
+		if cnt%2 == 1 {
+			m := (g.r.Uint64() | 1) &^ (uint64(1) << uint(1+g.r.Intn(62))) &^ (uint64(0xff) << uint(8*g.r.Intn(8)))
+			g.forceExec = &m
+		}
+		cnt++
+		g.pk = &pk
+		c := g.genVector(arch, st, d, plan{rk: -1, kind: kinds})
+		g.pk, g.forceExec = nil, nil
+		c.Tag = "pk"
+		if exact {
+			for i := 0; i < n; i++ {
+				key := []string{"s0", "s1", "s2"}[i]
+				o := c.Ops[key]
+				if o.C == 248 { // 1/(2*pi) has a full significand
+					o.C = 240 + g.r.Intn(8)
+					c.Ops[key] = o
+					srcs := [3]int{c.Ops["s0"].C, c.Ops["s1"].C, 0}
+					if n == 3 {
+						srcs[2] = c.Ops["s2"].C
+					}
+					c.Enc = encVOP3P(d.op, c.Ops["d"].C-256, pk.neghi, pk.opsel, pk.opselhi, srcs[0], srcs[1], srcs[2], pk.neg)
+				}
+				if o.C >= 256 {
+					vals := make([]uint64, nLane)
+					for l := range vals {
+						vals[l] = uint64(exactF32(g.r))<<32 | uint64(exactF32(g.r))
+					}
+					g.setV(c, o.C-256, 64, vals)
+				}
+			}
+		}
+		g.cases = append(g.cases, c)
+		if twins {
+			perm := g.r.Perm(nLane)
+			for perm[0] == 0 {
+				perm = g.r.Perm(nLane)
+			}
+			t := permuteCase(c, perm, g.nextID)
+			g.nextID++
+			g.cases = append(g.cases, t)
+		}
+	}
+	rnd := func(i, sel, selhi int) pkMod {
+		pk := pkMod{opsel: g.r.Intn(8), opselhi: g.r.Intn(8)}
+		if i >= 0 {
+			pk.opsel = pk.opsel&^(1<<uint(i)) | sel<<uint(i)
+			pk.opselhi = pk.opselhi&^(1<<uint(i)) | selhi<<uint(i)
+		}
+		if g.r.Intn(2) == 0 {
+			pk.neg = g.r.Intn(8)
+			pk.neghi = pk.neg
+		}
+		m := 1<<uint(n) - 1
+		pk.opsel, pk.opselhi, pk.neg, pk.neghi = pk.opsel&m, pk.opselhi&m, pk.neg&m, pk.neghi&m
+		return pk
+	}
+	fma := d.op == 944
+	for i := 0; i < n; i++ {
+		for _, kd := range []int{6, 1, 7} {
+			if twins && kd == 7 {
+				continue
+			}
+			kinds := [3]int{0, 0, 0}
+			kinds[i] = kd
+			emit(kinds, rnd(i, 0, 1), fma && kd != 7) // the usual form: low dword for the low result, high for the high
+			if kd != 7 && !twins {
+				emit(kinds, rnd(i, 1, 0), fma)
+				emit(kinds, rnd(i, 0, 0), fma)
+			}
+		}
+	}
+	if !twins {
+		// two constants at once
+		emit([3]int{6, 6, 0}, rnd(-1, 0, 0), fma)
+		emit([3]int{6, 0, 6}, rnd(-1, 0, 0), fma)
+		for k := 0; k < 4; k++ {
+			emit([3]int{0, 0, 0}, rnd(-1, 0, 0), false)
+		}
+		for k := 0; k < 2; k++ {
+			pk := rnd(-1, 0, 0)
+			pk.neg = 1 + g.r.Intn(1<<uint(n)-1)
+			pk.neghi = pk.neg ^ (1 + g.r.Intn(1<<uint(n)-1))
+			emit([3]int{0, 0, 0}, pk, fma)
+		}
+	}
+}
+
+// exactF32: +-m * 2^e, m in 0..15, e in -3..3: products of two such values and of one with 0.5 .. 4.0 are exact
+func exactF32(r *rand.Rand) uint32 {
+	v := float32(r.Intn(16)) * float32(math.Ldexp(1, r.Intn(7)-3))
+	if r.Intn(2) == 0 {
+		v = -v
+	}
+	return math.Float32bits(v)
 }
 
 func itoa(i int) string { return strconv.Itoa(i) }
@@ -1671,6 +1901,12 @@ func (g *gen) genC06(scale int, only map[string]bool) {
 			}
 			if d.f == "DS" || d.f == "FLAT" {
 				g.memPatterns(arch, d, true)
+			}
+			if floatResultVOP3(d) {
+				g.modifierRecords(arch, d, true)
+			}
+			if isPacked(d) {
+				g.packedRecords(arch, d, true)
 			}
 			// neighbouring lanes with confusable values (see genNbr): targets state carried from lane to lane
 			if d.f != "DS" && d.f != "FLAT" && d.tmpl != "vop1s" {
